@@ -1191,6 +1191,12 @@ fn builders_fam(c: &mut Case) {
     scverif::builders::case(c, "C05")
 }
 
+/// the uniform api traits (Predictor / SupervisedEstimator / UnsupervisedEstimator / Transformer) behave
+/// exactly like the inherent methods
+fn api_paths_fam(c: &mut Case) {
+    scverif::apipaths::case(c, "C05")
+}
+
 fn main() {
     runner::main(Spec {
         property: "C05",
@@ -1204,6 +1210,7 @@ fn main() {
             "power-of-two check only when the scaling of the inputs is exact (always, for the generated magnitudes); one common factor 2^j, j in ±1..8",
         ],
         families: vec![
+            Family::new("api_paths", 300, 3000, api_paths_fam),
             Family::new("builders", 300, 3000, builders_fam),
             Family::new("reg_mixed", 6000, 90000, reg_mixed),
             Family::new("reg_small_int", 3500, 52000, reg_small_int),
